@@ -244,6 +244,7 @@ def to_env(name, skip, rules, shapes=None):
     if skip is not None:
         walk(skip)
     env.pred_names = sorted(names)
+    env.raw_names = True          # the derive names rule structs r#NAME (stringify! of a raw identifier)
     return env
 
 
